@@ -89,6 +89,10 @@ func (s *PrintCtx) setentry(e *Entry) {
 
 	s.lvl = e.level
 	s.kvps = e.attrs
+
+	// the object is recycled: a level without registered colours must not
+	// inherit the colours of the record printed before.
+	s.clr, s.bg = clrBasic, clrNone
 }
 
 func (s *PrintCtx) set(e *Entry, lvl Level, timestamp time.Time, stackFrame uintptr, msg string, kvps Attrs) {
